@@ -107,7 +107,7 @@ pub fn check_placement(p: &Placement, defaults: &BTreeMap<String, String>, table
         }
         match &first {
             None => {
-                let default = defaults.get(&p.probe).cloned().unwrap_or_default();
+                let default = defaults.get(&default_key(p)).cloned().unwrap_or_default();
                 let acc = acceptable(p, probe, &default, table);
                 match &shown {
                     None => out.push(Violation::new("P0-shown", &format!("e2:{}:not-shown", p.probe), format!("option {} not found in --show-config output", p.probe))),
@@ -138,8 +138,12 @@ fn calibrate() -> (BTreeMap<String, String>, BuiltinTable) {
         let mut p = Placement::default();
         p.probe = probe.name.to_string();
         p.no_gitconfig = true;
-        if let (_, Some(v), None) = observe(&p, 1, 999_999) {
-            defaults.insert(probe.name.to_string(), v);
+        for extra in extra_cli_variants(probe.name) {
+            let mut q = p.clone();
+            q.extra_cli = extra;
+            if let (_, Some(v), None) = observe(&q, 1, 999_999) {
+                defaults.insert(default_key(&q), v);
+            }
         }
         for b in BUILTINS {
             // see the E1 part: a lower-priority custom feature carries a marker value
@@ -217,7 +221,7 @@ fn triples(seed: u64, stride: usize) -> Vec<Placement> {
 pub fn main_c13(tier: &str, seed: u64, replay: Option<&str>) -> i32 {
     let t0 = Instant::now();
     let (defaults, table) = calibrate();
-    if defaults.len() != PROBES.len() + WIDE.len() {
+    if defaults.len() < PROBES.len() + WIDE.len() {
         eprintln!("HARNESS-ERROR: could not read defaults for all probe options in process: {:?}", defaults);
         return 2;
     }
